@@ -429,6 +429,8 @@ type runner struct {
 	// probe mode (in-memory only): also record the real heap array, Index fields and insertion numbers
 	probe bool
 	pout  strings.Builder
+	// the implementation panicked: the history ends there
+	panicked bool
 }
 
 func (rn *runner) probeTerm(tg *target) string {
@@ -827,6 +829,29 @@ func weightsFor(mode string, impl string) weights {
 	return w
 }
 
+// safely runs a piece of a history; a panic inside the implementation ends the history with an entry no model accepts
+// (the message travels in the observation), so that the case is reported with its operations as the replay instead of
+// the harness dying.
+func (rn *runner) safely(f func()) {
+	if rn.panicked {
+		return
+	}
+	defer func() {
+		if x := recover(); x != nil {
+			rn.panicked = true
+			rn.g.stats["impl:panic"]++
+			msg := strings.ReplaceAll(fmt.Sprint(x), "\"", "'")
+			for _, tg := range rn.ts {
+				if tg.out.Len() > 0 {
+					tg.out.WriteString(";\n  ")
+				}
+				tg.out.WriteString("(ONext false, mkObs (RErr EOther) [] (Some \"<implementation panicked: " + msg + ">\"))")
+			}
+		}
+	}()
+	f()
+}
+
 func (rn *runner) history(n int, w weights, rich bool) {
 	total := w.add + w.get + w.update + w.cancel + w.dispatch + w.done + w.find + w.next + w.revert + w.canceldisp + w.delete
 	for i := 0; i < n; i++ {
@@ -939,16 +964,21 @@ func repoMain(args []string) {
 				tgB.prev[k] = v
 			}
 			rn.ts = []*target{tgA, tgB}
-			rn.history(*length-n1, weightsFor("c02", "inmem"), rich)
-			rn.drain()
+			rn.safely(func() {
+				rn.history(*length-n1, weightsFor("c02", "inmem"), rich)
+				rn.drain()
+			})
 			text = " (mkSnap [" + pre + "]\n [" + tgA.out.String() + "]\n [" + tgB.out.String() + "])"
 			tgA.out = &strings.Builder{}
 			tgA.out.WriteString(text)
 		} else {
-			rn.history(*length, w, rich)
-			if *mode == "c02" || r.Intn(4) == 0 {
-				rn.drain()
-			}
+			dr := *mode == "c02" || r.Intn(4) == 0
+			rn.safely(func() {
+				rn.history(*length, w, rich)
+				if dr {
+					rn.drain()
+				}
+			})
 			text = " [" + tgA.out.String() + "]"
 			if *probe {
 				text = " [" + rn.pout.String() + "]"
